@@ -14,7 +14,7 @@ Your task: make a SMALL source change (a few lines, under /tmp/seed{n}/source) t
 2. the bug needs something specific to manifest - an unusual input, a boundary value, a particular capacity or chunking or multi-step sequence of operations, a specific error path, or two cooperating sites that each look fine alone - NOT something ordinary use would expose at once;
 3. it looks like a plausible mistake or "optimisation" a maintainer could make.
 
-Also write a demonstration: a small Rust integration test file (in the `tests/` directory of the crate you changed, e.g. /tmp/seed{n}/source/postcard/tests/seed_demo.rs, using only the public API) that FAILS with your change and PASSES on the original code. Verify both: run it with your change (must fail), then `git stash` your source change (keep the test file untracked), run it on the original (must pass), then `git stash pop`.
+Also write a demonstration: a small Rust integration test file (in the `tests/` directory of the crate you changed, e.g. /tmp/seed{n}/source/postcard/tests/seed_demo.rs, using only the public API) that FAILS with your change and PASSES on the original code. Verify both: run it with your change (must fail), then save your change with `git diff -- source > patch.diff` and undo it with `git apply -R patch.diff` (never use `git stash`: the stash is shared between worktrees), run the test on the original (must pass), then re-apply with `git apply patch.diff`.
 
 Finally produce:
 - /tmp/seed{n}/patch.diff : `git diff` of the source change only (not the demo test), applicable with `git apply` from the repository root;
